@@ -367,10 +367,11 @@ def exotic_pool():
 
 EXO_DIRS = [['d d'], ['d d', '\u00e9t\u00e9'], ['.hid']]
 EXO_LEAVES = [['x y'], ['.dot'], ['d d', 'f\u00fcr.txt'], ['d d', '\u00e9t\u00e9', 'z' * 200], ['.hid', '\u4e2d\u6587'],
-              ['d d', '\u00e9t\u00e9', '-dash']]
+              ['d d', '\u00e9t\u00e9', '-dash'],
+              ['k.tmp'], ['k.new']]      # outputs named like the cache file plus a suffix
 
 CORRUPT = ['truncate', 'bitflip', 'notgzip', 'empty', 'gzip_nonjson', 'json_nonobject', 'other_software',
-           'newer_format', 'missing_key', 'dir', 'bitflip_inplace', 'bitflip_inplace']
+           'newer_format', 'missing_key', 'dir', 'bitflip_inplace', 'bitflip_inplace', 'bad_field', 'bad_field', 'bad_field']
 
 
 def make_refuse(seed, profile):
@@ -425,7 +426,11 @@ KEY_POOL = [None, True, False, 0, 1, 1.0, 2, '1', 'a', '', [], {}, [1], (1,), [1
             {'a': 1}, {'a': 1.0}, {'a': True}, {'a': None}, {'b': None}, {'a': 1, 'b': 2}, {'b': 2, 'a': 1},
             {'a': 1, 'b': None}, {1: 'x'}, {'1': 'x'}, {1.0: 'x'}, {True: 'x'}, {'true': 'x'}, {None: 'x'}, {'null': 'x'},
             [[1], {'a': (1,)}], [(1,), {'a': [1]}], [[1.0], {'a': [True]}], {'a': {'b': [1, {'c': None}]}},
-            {'a': {'b': [1, {'c': None, 'd': None}]}}, 2 ** 63, float(2 ** 63), 'é', [None], [[]]]
+            {'a': {'b': [1, {'c': None, 'd': None}]}}, 2 ** 63, float(2 ** 63), 'é', [None], [[]],
+            # one-entry objects keyed by the words a tagged encoding might use, next to the values they could be
+            # mistaken for
+            {'bool': 1}, {'bool': 0}, {'bool': True}, {'int': 1}, {'float': 1.0}, {'str': '1'}, {'list': [1]},
+            {'null': None}, {'none': None}, ['bool', True], ['bool', 1], {'tuple': [1]}, {'dict': {}}]
 SPELLS = [None, 'bytes', 'pathlike', 'rel', 'dblsep', 'dotdot', 'dot']
 SPELLS_Q = ['bytes', 'pathlike', 'rel', 'dblsep', 'dotdot', 'dot', 'dotdot', 'dblsep']
 
@@ -447,7 +452,7 @@ def make_keys(seed, profile):
     rnd = random.Random('keys:%s' % seed)
     v = rnd.choice(KEY_POOL)
     w = rnd.choice([v, v, rnd.choice(KEY_POOL), rnd.choice(KEY_POOL)])
-    shape = rnd.choice(['args', 'kw', 'kwextra', 'both', 'nested', 'poskw', 'mutkey', 'subkey'])
+    shape = rnd.choice(['args', 'kw', 'kwextra', 'both', 'nested', 'poskw', 'mutkey', 'subkey', 'tagpair'])
     if shape == 'args':
         c1, c2 = {'args': [v]}, {'args': [w]}
     elif shape == 'kw':
@@ -458,6 +463,17 @@ def make_keys(seed, profile):
             c1, c2 = c2, c1
     elif shape == 'both':
         c1, c2 = {'args': [v, w], 'kw': {'k': v}}, {'args': [v, w], 'kw': {'k': v}}
+    elif shape == 'tagpair':
+        # a value and the one-entry object / pair a tagged encoding of it might look like: different keys
+        v, w = rnd.choice([(True, {'bool': 1}), (False, {'bool': 0}), (True, {'bool': True}), (1, {'int': 1}),
+                           (1.0, {'float': 1.0}), ('1', {'str': '1'}), ([1], {'list': [1]}), (None, {'null': None}),
+                           (None, {'none': None}), (True, ['bool', True]), ((1,), {'tuple': [1]}), ({}, {'dict': {}}),
+                           (False, {'bool': 0.0}), (True, {'bool': 1.0})])
+        c1, c2 = {'args': [v]}, {'args': [w]}
+        if rnd.random() < 0.3:
+            c1, c2 = {'args': [[v, 'x']]}, {'args': [[w, 'x']]}
+        if rnd.random() < 0.5:
+            c1, c2 = c2, c1
     elif shape == 'subkey':
         # dictionary keys / values that are instances of int / float / str subclasses with a repr of their own
         # (IntEnum members and the like): the same key as the plain value and as its JSON string form
@@ -485,7 +501,7 @@ def make_keys(seed, profile):
             c1, c2 = c2, c1
     else:
         c1, c2 = {'args': [[v, {'n': w}]]}, {'args': [(v, {'n': w})]}
-    kind = rnd.choice(['sb', 'bf', 'bf'])
+    kind = rnd.choice(['sb', 'bf', 'bf']) if shape != 'tagpair' else rnd.choice(['sb', 'sb', 'bf'])
     f1 = 'f0a'
     f2 = rnd.choice(['f0a', 'f0a', 'f0a', 'f0b'])
     prog = {'f0a': [{'s': 'write', 'c': 'c1', 'sz': 4}, {'s': 'return'}],
@@ -1171,7 +1187,8 @@ def make_scenario(seed, profile='general'):
             return {'op': 'ext', 'do': 'write', 'p': rnd.choice(LEAVES + DIRS),
                     'c': rnd.choice(['c8', 'c9']), 'sz': rnd.choice(SIZES)}
         if P.get('foreign') and rnd.random() < 0.5:
-            return {'op': 'ext', 'do': 'write', 'p': rnd.choice(FOREIGN + [['kz']]),
+            # (also names next to the cache file that a temp-file-and-rename or lock-file scheme might pick)
+            return {'op': 'ext', 'do': 'write', 'p': rnd.choice(FOREIGN + [['kz'], ['k.tmp'], ['k.bak'], ['k.lock'], ['.k.tmp']]),
                     'c': rnd.choice(['c8', 'c9']), 'sz': rnd.choice(SIZES)}
         return rand_ext(rnd, orc, cache)
 
